@@ -91,6 +91,12 @@ def play(case, expand):
                 sid0 = f"w {i} é" if s0.get("idkind") == "spaces" else f"w{i}"
                 decoy.systems.add_system(Win(sid0, decoy, junk, start=int(s0["start"]) + 1, frequency=int(s0["freq"]) + 1))
         decoy.execute(2)
+        if case.get("substep"):
+            # sub-model stepping: a system of the tested model advances the OTHER model from inside its execute()
+            class _Stepper(System):
+                def execute(self_):
+                    decoy.execute()
+            model.systems.add_system(_Stepper("stepper", model, priority=50))
     specs = case["systems"][:80]
     for s in specs:
         if int(s["freq"]) < 1:
@@ -268,7 +274,7 @@ def run_case(case):
     if any(s.get("foreign") for s in specs):
         labels.append("system-built-for-another-model")
     if case.get("decoy"):
-        labels.append("second-model-alive")
+        labels.append("second-model-alive" + ("-stepped-from-inside-a-system" if case.get("substep") else ""))
     if any(o["op"] == "stepn" and int(o["n"]) > 64 for o in case["script"]):
         labels.append("execute(n>64)")
     if len(specs) > 16:
@@ -304,7 +310,7 @@ def strategy(tier):
                                     "spawn": st.fixed_dictionaries({"at": st.integers(0, 4), "prio": st.sampled_from([-1, 0, 1]), "spec": system(),
                                                                     "once": st.just(True)}), "decoy": st.just(False)})
     small = st.fixed_dictionaries({"systems": st.lists(system(), min_size=1, max_size=5), "script": sized_lists(op, 1, 25),
-                                   "spawn": spawn, "decoy": st.sampled_from([False] * 5 + [True])})
+                                   "spawn": spawn, "decoy": st.sampled_from([False] * 4 + [True, True]), "substep": st.booleans()})
     long_call = st.fixed_dictionaries({"systems": st.lists(system(), min_size=1, max_size=4), "script": long_script, "spawn": st.none()})
     crowded = st.fixed_dictionaries({"systems": many, "script": sized_lists(op, 3, 12), "spawn": spawn})
     return wone_of(*([small] * 11 + [sparse, sparse, long_call, long_call, crowded]))
